@@ -208,6 +208,50 @@ def _followed_by(g, blk, idx, obj, names):
     return bool(ss) and all(walk(s) for s in ss)
 
 
+def rule_cache_key(chk, db, cfgname):
+    chk.rule('C19.3', 'the process-wide subdivision-pattern cache is keyed by the complete division tuple: every find / '
+             'insert / operator[] on Partition::cache uses the parameter of GetCachedPartition itself as the key (a '
+             'derived, possibly lossy key lets two different tuples share one cached pattern, and what Refine returns '
+             'then depends on what was refined before)')
+    n = 0
+    for f in db.functions.values():
+        if not f.get('blocks') or T.short(f['name']) != 'GetCachedPartition':
+            continue
+        params = {p['n'] for p in f['params']}
+        for b in f['blocks']:
+            for e in b['ev']:
+                if e.get('k') != 'call' or e.get('recv') is None:
+                    continue
+                r = T.strip_copy(e['recv'])
+                if not (r.get('k') == 'var' and r.get('n', '').endswith('Partition::cache')):
+                    continue
+                m = T.short(e.get('fn', ''))
+                keys = []
+                if m in ('find', 'count', 'at', 'erase') or e.get('op') == '[]':
+                    keys = e.get('args', [])[:1]
+                elif m in ('insert', 'emplace', 'try_emplace', 'insert_or_assign'):
+                    a0 = T.strip_copy(e['args'][0]) if e.get('args') else {}
+                    # insert({key, value}) / emplace(key, value)
+                    inner = a0.get('args') if a0.get('k') in ('ilist', 'ctor') and a0.get('args') else e.get('args', [])
+                    keys = inner[:1]
+                for kx in keys:
+                    n += 1
+                    k0 = T.strip_copy(kx)
+                    while k0.get('k') in ('ctor', 'ilist') and len(k0.get('args', [])) == 1:
+                        k0 = T.strip_copy(k0['args'][0])
+                    ok = k0.get('k') == 'var' and k0.get('n') in params
+                    chk.obligation(ok, {'function': f['name'][:60], 'line': e.get('ln'), 'cache operation': m or '[]',
+                                        'key': T.pstr(k0)[:40], 'is the parameter itself': ok})
+                    if not ok:
+                        chk.violation('C19.3', f, 'cache keyed by %s' % T.pstr(k0)[:30],
+                                      'Partition::cache is accessed with the key %s instead of the division tuple '
+                                      'itself: if the mapping is not injective, different tuples share one cached '
+                                      'subdivision pattern' % T.pstr(k0)[:40], line=e.get('ln'), cfg=cfgname)
+    if n == 0:
+        raise AnalysisBroken('C19.3: no access to Partition::cache found in GetCachedPartition')
+    chk.count('c19.3.cache_accesses', n)
+
+
 def main(chk, tier):
     import db as D
     configs = ['seq', 'par'] if tier == 'quick' else ['seq', 'par', 'seq-debug', 'par-debug']
@@ -227,6 +271,7 @@ def main(chk, tier):
             raise AnalysisBroken('C19.1: Refine escape points not found')
         escape.report(chk, e, res, reqv, 'C19.1', cfgname, 'TS')
         rule_tolerance(chk, db, cfgname, tab)
+        rule_cache_key(chk, db, cfgname)
     n = len(configs)
     chk.floor('c19.1.escape_points', 3 * n)
     chk.floor('c19.2.writes', 14 * n)
